@@ -47,6 +47,7 @@ type rw struct {
 	tmp    int
 	usedVS bool
 	usedOS bool
+	noted  map[*ast.AssignStmt]bool
 }
 
 func (r *rw) fresh(p string) string { r.tmp++; return fmt.Sprintf("_vs%s%d", p, r.tmp) }
@@ -262,6 +263,14 @@ func (r *rw) rewriteGo(g *ast.GoStmt) ast.Stmt {
 	return &ast.BlockStmt{List: append(pre, goCall)}
 }
 
+func isCaseBody(n ast.Node) bool {
+	switch n.(type) {
+	case *ast.CaseClause, *ast.CommClause:
+		return true
+	}
+	return false
+}
+
 func isNilIdent(e ast.Expr) bool {
 	id, ok := e.(*ast.Ident)
 	return ok && id.Name == "nil"
@@ -365,6 +374,15 @@ func (r *rw) walk(root ast.Node) {
 					n.Rhs[0] = r.recvExpr(u.X, len(n.Lhs) == 2)
 				}
 			}
+			// m[k] = v  =>  vsched.NoteKey(m, k); m[k] = v   (insertion order is owned)
+			if modes["maps"] && len(n.Lhs) == 1 && n.Tok == token.ASSIGN && !r.noted[n] {
+				if ix, ok := n.Lhs[0].(*ast.IndexExpr); ok && r.isMap(ix.X) {
+					if _, inBlock := c.Parent().(*ast.BlockStmt); inBlock || isCaseBody(c.Parent()) {
+						r.noted[n] = true
+						c.InsertBefore(&ast.ExprStmt{X: call(r.vs("NoteKey"), ix.X, ix.Index)})
+					}
+				}
+			}
 		case *ast.ValueSpec:
 			if len(n.Values) == 1 {
 				if u, ok := ast.Unparen(n.Values[0]).(*ast.UnaryExpr); ok && u.Op == token.ARROW {
@@ -458,7 +476,7 @@ func main() {
 		if !want[filepath.Base(path)] {
 			continue
 		}
-		r := &rw{fset: p.Fset, info: p.TypesInfo, pkg: p.Types}
+		r := &rw{fset: p.Fset, info: p.TypesInfo, pkg: p.Types, noted: map[*ast.AssignStmt]bool{}}
 		r.apply(f)
 		if r.usedVS {
 			astutil.AddImport(p.Fset, f, vschedPath)
